@@ -14,6 +14,15 @@ Engine T (input-history tree), exact-rational oracle.
      configuration of the menu: record length, non-decreasing, 0 <= CAV_dp <= CAV/9.81,
      exactly zero when no one-second window reaches the gate, otherwise between
      sum(window integral - one panel) and sum(window integral) over the qualifying windows.
+(iii) Operation histories on ONE object.  "The record" of a signal object is its current record,
+     also after `reset_values()`: every measure is a function of (current record, dt) and of nothing
+     the object has seen before.  (i) every word of length >= 3 is reached on a reused AccSignal
+     along the tree edge from its parent (parent -> measures -> reset_values(word) -> measures:
+     longer record) and the parent is reached back from the word (shorter record, handed over
+     as a Python list of ints); all six series are compared with the exact reference of the
+     CURRENT record.  (ii) for the configurations with at most REUSE_CAP words every word is
+     evaluated on one reused AccSignal after a shorter (2 s) and after a one second longer
+     record (and those after the word), with the full set of standardised-CAV sub-claims.
 """
 import itertools
 from fractions import Fraction
@@ -52,11 +61,15 @@ FUNCS = {
 LV100 = (0, 2, -3, 5)
 LV_FRAC = tuple(Fraction(v, 100) * im_ref.G for v in LV100)
 LV_FLOAT = tuple(float(v) for v in LV_FRAC)
+LV_OF = dict(zip(LV100, LV_FLOAT))
 CAVDP_DTS = (1.0, 0.5, 0.25, 0.2)
 CAVDP_SECS = (2, 3, 4, 5)
 RTOL = 1e-9
 REL_RTOL = 1e-11     # relations between two executions (round-off only)
 MONO_RTOL = 1e-12    # a decrease below this fraction of the series peak is round-off
+# reused-object histories of the standardised CAV: configurations with at most this many words
+REUSE_CAP = {'quick': 4096, 'thorough': 65536}
+PRIOR_LEVELS = (3, 2)    # indices into LV100: the other records of a history alternate 0.05 g / -0.03 g
 
 
 def cavdp_configs(tier):
@@ -86,24 +99,35 @@ def build(tier, seed):
     for dt, sec, extra, n, nl in sorted(cfgs, key=lambda c: (c[3], c[4], -c[0])):
         suf = min(n, 4 if nl == 4 else 5)
         for pre in itertools.product(range(nl), repeat=n - suf):
-            cases.append({'k': 'cavdp', 'dt': dt, 'n': n, 'levels': nl, 'pre': list(pre)})
+            cases.append({'k': 'cavdp', 'dt': dt, 'n': n, 'levels': nl, 'pre': list(pre),
+                          'reuse': nl ** n <= REUSE_CAP[tier]})
     n_dp = sum(nl ** n for _, _, _, n, nl in cfgs)
+    reuse_cfgs = [c for c in cfgs if c[4] ** c[3] <= REUSE_CAP[tier]]
     return {
         'cases': cases,
         'rule': '(i) all words over {-2..2} of length 2..%d (one pool case per word) x dt in %s x {float64, int64 '
                 'record} x 6 measures, relations alpha in %s and zero padding k in %s for words ending at 0; '
                 '(ii) standardised CAV: all %d words over levels {0, 0.02g, -0.03g, 0.05g} for the (dt, seconds, '
                 'extra sample) configurations listed under bounds (one pool case = all words sharing a prefix); '
+                '(iii) histories on one reused AccSignal: (i) parent -> word -> parent along every tree edge between '
+                'lengths >= 2 (all 6 measures against the exact reference of the current record), (ii) for the %d '
+                'configurations with <= %d words: every word after a 2 s record and after a one second longer record '
+                '(and those records after the word); '
                 'non-trivial = record not identically zero'
-                % (L, list(DTS), list(ALPHAS), list(PADS), n_dp),
+                % (L, list(DTS), list(ALPHAS), list(PADS), n_dp, len(reuse_cfgs), REUSE_CAP[tier]),
         'bounds': {'alphabet': SIGMA, 'max_len': L, 'dt': DTS, 'alpha': ALPHAS, 'zero_padding': PADS,
                    'cavdp_levels_in_g': [0, 0.02, -0.03, 0.05], 'cavdp_gate_g': 0.025,
-                   'cavdp_configs(dt,seconds,extra_sample,n,levels_used)': cfgs, 'cavdp_words': n_dp},
+                   'cavdp_configs(dt,seconds,extra_sample,n,levels_used)': cfgs, 'cavdp_words': n_dp,
+                   'cavdp_reused_object_configs': reuse_cfgs, 'cavdp_reused_object_max_words': REUSE_CAP[tier],
+                   'cavdp_reused_object_other_records': 'alternating 0.05 g / -0.03 g, lengths 2 s and word + 1 s'},
         'required_classes': ['quad-mixed-sign-acc', 'quad-velocity-sign-change', 'quad-zero-append', 'quad-scaling',
                              'quad-sign-reversal', 'quad-int-input', 'quad-zero-record',
                              'cavdp-none-qualify', 'cavdp-some-qualify', 'cavdp-all-qualify',
                              'cavdp-extra-sample', 'cavdp-tail-only-above-gate', 'cavdp-end-sample-decides',
-                             'cavdp-lower-bound-positive', 'cavdp-sub-gate-window-skipped'],
+                             'cavdp-lower-bound-positive', 'cavdp-sub-gate-window-skipped',
+                             'quad-reused-object-longer-record', 'quad-reused-object-shorter-record',
+                             'quad-reused-object-int-list', 'cavdp-reused-object-longer-record',
+                             'cavdp-reused-object-shorter-record', 'cavdp-reused-object-same-length'],
         'assumptions': [
             'sample values outside the alphabets, lengths above the bound and dt outside the menus are not examined',
             'reference: exact rational running integrals (fractions.Fraction); tolerance 1e-9 of the series peak',
@@ -114,15 +138,18 @@ def build(tier, seed):
             'standardised CAV: one-second windows are the aligned windows [i, i+1] s, i < floor(duration), each '
             'including both end samples; no level lies on the 0.025 g gate (a rounding-level tie)',
             'zero padding is checked for the acceleration based quadrature measures only (Arias, CAV, int|a|)',
+            'the record of a signal object is its current record: after reset_values(new record) every measure '
+            'is that of the new record (same claims, same tolerances as for a freshly constructed object); the '
+            'reference of a parent word is the prefix of the reference of the word (all running integrals are causal)',
         ],
     }
 
 
 # ------------------------------------------------------------------------------------------
-def _series_ok(r, name, sub, out, n):
+def _series_ok(r, name, sub, out, n, claim='length.'):
     arr = to_array(out)
     ok = arr is not None and arr.ndim == 1 and arr.shape[0] == n and arr.dtype.kind == 'f'
-    r.expect('length.' + name, sub, ok, 'series is not a real 1-d array of the record length %d' % n,
+    r.expect(claim + name, sub, ok, 'series is not a real 1-d array of the record length %d' % n,
              observed=(None if arr is None else list(arr.shape)), expected=[n])
     return arr if ok else None
 
@@ -131,6 +158,47 @@ def _monotone(r, claim, sub, arr, peak):
     d = np.diff(arr)
     ok = bool(np.all(d >= -MONO_RTOL * peak)) if d.size else True
     r.expect(claim, sub, ok, 'series decreases', observed=arr)
+
+
+def _quad_history(r, w, dt, reff):
+    """parent = w[:-1] -> all measures -> reset_values(w) -> all measures -> reset_values(parent as a
+    Python list of ints) -> all measures, on one AccSignal.  The exact reference of the parent is the
+    prefix of the reference of w (running integrals are causal)."""
+    n = len(w)
+    parent = list(w[:-1])
+    steps = (('parent', None, n - 1),
+             ('longer', lambda: np.array(w, dtype=float), n),
+             ('shorter', lambda: list(parent), n - 1))
+    sig = None
+    hist = []
+    for tag, make, m in steps:
+        hist = hist + [tag]
+        sub0 = {'w': w, 'dt': dt, 'history': hist}
+        r.states += 1
+        if make is None:
+            ok, sig = r.call('construct', sub0, eqsig.AccSignal, np.array(parent, dtype=float), dt)
+        else:
+            r.transitions += 1
+            ok, _ = r.call('reuse.reset_values', sub0, sig.reset_values, make())
+            if tag == 'longer':
+                r.cls('quad-reused-object-longer-record')
+            else:
+                r.cls('quad-reused-object-shorter-record')
+                r.cls('quad-reused-object-int-list')
+        if not ok:
+            return
+        for name, deg, accb in MEASURES:
+            sub = dict(sub0, measure=name)
+            ok, out = r.call('reuse.' + name, sub, FUNCS[name], sig)
+            if not ok:
+                continue
+            arr = _series_ok(r, name, sub, out, m, 'reuse.length.')
+            if arr is None:
+                continue
+            want = reff[name][:m]
+            peak = float(np.max(np.abs(want)))
+            r.expect_close('reuse.' + name, sub, arr, want, rtol=RTOL, scale=peak)
+            _monotone(r, 'reuse.monotone.' + name, sub, arr, peak)
 
 
 def run_quad(w):
@@ -181,6 +249,10 @@ def run_quad(w):
                 _monotone(r, 'monotone.' + name, sub, arr, peak)
                 if entry == 'f64':
                     base[name] = arr
+        # operation history on ONE object (tree edge parent -> word and back): the series are those of
+        # the object's current record, whatever it held and whatever was computed on it before
+        if n >= 3:
+            _quad_history(r, w, dt, reff)
         # relations between executions: a -> alpha * a
         for alpha in ALPHAS:
             r.transitions += 1
@@ -234,6 +306,70 @@ def run_quad(w):
 
 
 # ------------------------------------------------------------------------------------------
+def _check_cavdp(r, pfx, sub, out, n, rf):
+    """All standardised-CAV sub-claims for one execution (pfx '' : fresh object, 'reuse.': history)."""
+    arr = _series_ok(r, 'cavdp', sub, out, n, pfx + 'length.')
+    if arr is None:
+        return
+    if not np.all(np.isfinite(arr)):
+        r.fail(pfx + 'cavdp.range', sub, 'non-finite value', observed=arr)
+        return
+    lo_f, hi_f, cav_f = float(rf['lo']), float(rf['hi']), float(rf['cav_g'])
+    scale = max(cav_f, 1e-300)
+    _monotone(r, pfx + 'monotone.cavdp', sub, arr, cav_f)
+    r.expect(pfx + 'cavdp.range', sub,
+             float(arr.min()) >= -MONO_RTOL * scale and float(arr.max()) <= cav_f * (1 + RTOL),
+             'standardised CAV outside [0, CAV/9.81]', observed=arr, expected=[0.0, cav_f])
+    if rf['nq'] == 0:
+        r.expect(pfx + 'cavdp.zero', sub, bool(np.all(arr == 0.0)),
+                 'no one-second window reaches 0.025 g but the series is not zero', observed=arr, expected=0.0)
+    else:
+        fin = float(arr[-1])
+        r.expect(pfx + 'cavdp.windows', sub, lo_f - RTOL * hi_f <= fin <= hi_f * (1 + RTOL),
+                 'final value not within one trapezoid panel per qualifying window of the windowed sum',
+                 observed=fin, expected=[lo_f, hi_f])
+
+
+class _Reused(object):
+    """One AccSignal carried through a whole pool case; every step is reset_values(record) followed by
+    calc_cav_dp, checked against the exact reference of the record just handed over."""
+
+    def __init__(self, r, dt):
+        self.r = r
+        self.dt = dt
+        self.sig = None
+        self.prev = None        # levels (0.01 g) of the record the object held at the previous step
+
+    def step(self, lv, rf):
+        r = self.r
+        acc = np.array([LV_OF[v] for v in lv])
+        sub = {'dt': self.dt, 'levels_in_0.01g': list(lv), 'previous_levels_in_0.01g': self.prev}
+        r.states += 1
+        if self.sig is None:
+            ok, self.sig = r.call('construct', sub, eqsig.AccSignal, acc, self.dt)
+            if not ok:
+                self.sig = None
+                return
+        else:
+            r.transitions += 1
+            d = len(lv) - len(self.prev)
+            r.cls('cavdp-reused-object-longer-record' if d > 0 else
+                  'cavdp-reused-object-shorter-record' if d < 0 else 'cavdp-reused-object-same-length')
+            ok, _ = r.call('reuse.reset_values', sub, self.sig.reset_values, acc)
+            if not ok:
+                self.sig = None
+                self.prev = None
+                return
+        self.prev = list(lv)
+        ok, out = r.call('reuse.cavdp', sub, im.calc_cav_dp, self.sig)
+        if ok:
+            _check_cavdp(r, 'reuse.', sub, out, len(lv), rf)
+
+
+def _prior(m):
+    return [LV100[PRIOR_LEVELS[i % 2]] for i in range(m)]
+
+
 def run_cavdp(case):
     r = Res()
     dt = case['dt']
@@ -242,6 +378,14 @@ def run_cavdp(case):
     pre = tuple(case['pre'])
     h = frac(dt)
     pps = int(1 / h)
+    reused = None
+    if case.get('reuse'):
+        # the other records of the histories: one second longer, and the shortest admissible one (2 s)
+        reused = _Reused(r, dt)
+        lv_long = _prior(n + pps)
+        rf_long = im_ref.cav_dp_reference(lv_long, pps, h)
+        lv_short = _prior(2 * pps + 1) if 2 * pps + 1 < n else None
+        rf_short = im_ref.cav_dp_reference(lv_short, pps, h) if lv_short else None
     for suf in itertools.product(range(nl), repeat=n - len(pre)):
         x = pre + suf
         lv = [LV100[i] for i in x]
@@ -251,8 +395,7 @@ def run_cavdp(case):
         if nz:
             r.nontrivial += 1
         rf = im_ref.cav_dp_reference(lv, pps, h)
-        lo, hi, cav_g, nq, nwin, end_decides = rf['lo'], rf['hi'], rf['cav_g'], rf['nq'], rf['nwin'], rf['end_decides']
-        lo_f, hi_f, cav_f = float(lo), float(hi), float(cav_g)
+        lo, nq, nwin, end_decides = rf['lo'], rf['nq'], rf['nwin'], rf['end_decides']
         if (n - 1) % pps:
             r.cls('cavdp-extra-sample')
             tail = lv[nwin * pps + 1:]
@@ -276,27 +419,16 @@ def run_cavdp(case):
         def go():
             return im.calc_cav_dp(eqsig.AccSignal(acc, dt))
         ok, out = r.call('cavdp', sub, go)
-        if not ok:
-            continue
-        arr = _series_ok(r, 'cavdp', sub, out, n)
-        if arr is None:
-            continue
-        if not np.all(np.isfinite(arr)):
-            r.fail('cavdp.range', sub, 'non-finite value', observed=arr)
-            continue
-        scale = max(cav_f, 1e-300)
-        _monotone(r, 'monotone.cavdp', sub, arr, cav_f)
-        r.expect('cavdp.range', sub,
-                 float(arr.min()) >= -MONO_RTOL * scale and float(arr.max()) <= cav_f * (1 + RTOL),
-                 'standardised CAV outside [0, CAV/9.81]', observed=arr, expected=[0.0, cav_f])
-        if nq == 0:
-            r.expect('cavdp.zero', sub, bool(np.all(arr == 0.0)),
-                     'no one-second window reaches 0.025 g but the series is not zero', observed=arr, expected=0.0)
-        else:
-            fin = float(arr[-1])
-            r.expect('cavdp.windows', sub, lo_f - RTOL * hi_f <= fin <= hi_f * (1 + RTOL),
-                     'final value not within one trapezoid panel per qualifying window of the windowed sum',
-                     observed=fin, expected=[lo_f, hi_f])
+        if ok:
+            _check_cavdp(r, '', sub, out, n, rf)
+        if reused is not None:
+            # history on the one reused object: (2 s record | previous word) -> word -> longer record
+            # -> word -> 2 s record; each step checked against the exact reference of its own record
+            reused.step(lv, rf)
+            reused.step(lv_long, rf_long)
+            reused.step(lv, rf)
+            if lv_short:
+                reused.step(lv_short, rf_short)
     return r
 
 
@@ -315,6 +447,12 @@ def snippet(case, v):
                 "a = np.concatenate([a, np.zeros(sub.get('zeros', 0))])\n"
                 "if sub.get('entry') == 'i64': a = np.array(sub['w'], dtype=np.int64)\n"
                 "s = eqsig.AccSignal(a, sub['dt'])\n"
+                "fs = (im.calc_arias_intensity, im.calc_cav, im.calc_isv, im.calc_integral_of_abs_acceleration,\n"
+                "      im.calc_integral_of_abs_velocity, im.calc_unit_kinetic_energy)\n"
+                "if 'history' in sub:   # one object: parent -> w -> parent (list of ints)\n"
+                "    s = eqsig.AccSignal(np.array(sub['w'][:-1], float), sub['dt'])\n"
+                "    for rec in [np.array(sub['w'], float), list(sub['w'][:-1])][:len(sub['history']) - 1]:\n"
+                "        [f(s) for f in fs]; s.reset_values(rec)\n"
                 "for f in (im.calc_arias_intensity, im.calc_cav, im.calc_isv, im.calc_integral_of_abs_acceleration,\n"
                 "          im.calc_integral_of_abs_velocity, im.calc_unit_kinetic_energy):\n"
                 "    print(f.__name__, f(s))\n" % (sub,))
@@ -322,4 +460,7 @@ def snippet(case, v):
             "sub = %r\n"
             "a = np.array(sub['levels_in_0.01g'], float) * 0.01 * 9.81\n"
             "s = eqsig.AccSignal(a, sub['dt'])\n"
+            "if sub.get('previous_levels_in_0.01g'):   # history on one object\n"
+            "    s = eqsig.AccSignal(np.array(sub['previous_levels_in_0.01g'], float) * 0.01 * 9.81, sub['dt'])\n"
+            "    im.calc_cav_dp(s); s.reset_values(a)\n"
             "print('cav_dp', im.calc_cav_dp(s))\nprint('cav/9.81', im.calc_cav(s)[-1] / 9.81)\n" % (sub,))
